@@ -32,7 +32,7 @@ OPS = [
 ]
 OP_KIND = dict(OPS)
 # object status when the session ends (coll = whether the collections of the object were loaded in that session)
-STATUSES = ['loaded', 'loaded_coll', 'loaded_partial', 'created', 'created_noconn', 'inserted', 'modified', 'updated',
+STATUSES = ['loaded', 'loaded_coll', 'loaded_partial', 'created', 'created_noconn', 'inserted', 'modified', 'modified_json', 'updated',
             'marked_to_delete', 'deleted', 'cancelled']
 ENDINGS = ['commit', 'rollback', 'exception', 'commit_failed']
 CTXS = ['outside', 'new_session']
@@ -167,13 +167,15 @@ def build(db, status, ending, strict):
             # operands first: every query below this block would flush pending changes and alter the status under test
             keep['s3'] = S[3]; keep['s2'] = S[2]; keep['t1'] = T[1]; keep['t2'] = T[2]
             keep['t2'].name; keep['s3'].name; keep['s2'].name; keep['t1'].name
-        if status in ('loaded', 'loaded_coll', 'loaded_partial', 'modified', 'updated', 'marked_to_delete', 'deleted'):
+        if status in ('loaded', 'loaded_coll', 'loaded_partial', 'modified', 'modified_json', 'updated', 'marked_to_delete', 'deleted'):
             g = G[1]; s = S[1]
             g.name; s.name; s.g; s.boss_of
             if status == 'loaded_coll':
                 list(g.items); list(g.tags); g.boss
             if status == 'loaded_partial':
                 keep['s2'] in g.items; keep['t1'] in g.tags        # partially loaded collections
+            if status == 'modified_json':       # the Json attribute itself was changed in place (twice) in the session: its bit is set in _wbits_
+                s.name = 's1-mod'; g.data['k'] = 2; g.data['k'] = 3
             if status in ('modified', 'updated'):
                 g.name = 'g1-mod'; s.name = 's1-mod'
                 if status == 'updated': orm.flush()
